@@ -19,7 +19,7 @@ EXPLANATION = (
     "call tree writes no position, timestamp or observation list of the track except one store guarded by a mode "
     "set that excludes the mode constant map-matching passes.")
 ASSUMPTIONS = ["callees are resolved by name with receiver typing from constructors/annotations (DESIGN section 2, effects)"]
-TECHNIQUE = "guard dominance and provenance on loop-body paths (F6), index pairing (F3), interprocedural write-effect summaries (F1)"
+TECHNIQUE = "abstract interpretation of the candidate construction (__mapOnNetwork with an uninterpreted projector) and of the decoder's write-back on a second decoding of the same track (HMM.estimate, bounded case domains); guard dominance and provenance on loop-body paths (F6), index pairing (F3), interprocedural write-effect summaries (F1)"
 
 
 def vr(v):
